@@ -232,6 +232,18 @@ impl Engine for TxSim {
         TxCase { world, ops }
     }
 
+    fn panic_facts(&self, case: &TxCase) -> Vec<(String, String)> {
+        // a world whose balances add up to more than 2^256-1 (C06/C08 ask for them; no chain
+        // can reach it): the wrapping / saturating balance arithmetic of the known findings
+        // D7a-c can then leave states revm treats as impossible
+        let mut sum = alloy_primitives::U512::ZERO;
+        for a in case.world.disk.accounts.values() {
+            sum += crate::model::to_u512(a.balance);
+        }
+        let over = sum > crate::model::to_u512(U256::MAX);
+        vec![("world_supply".into(), if over { "above-2^256".into() } else { "within-2^256".into() })]
+    }
+
     fn execute(&self, case: &TxCase, stats: &mut Stats) -> Vec<Violation> {
         run_monitor_case(case, stats, &self.focus)
     }
